@@ -279,10 +279,10 @@ Qed.
 (* ------------------------------------------------------------------------------------------ *)
 (* browse: listings and archives                                                               *)
 
-Lemma browse_cases fs hide pages prefix confs m req ae archive :
-  let out := browse fs hide pages prefix confs m req ae archive in
+Lemma browse_cases fs hide pages prefix confs m req ae archive limit :
+  let out := browse fs hide pages prefix confs m req ae archive limit in
   out = serve_file fs hide pages prefix m req ae \/
-  out = Status 501 \/ out = Status 404 \/
+  out = Status 501 \/ (out = Status 404 \/ out = Status 400) \/
   (exists u, out = Redirect 301 (http_redirect req (escape_path (trim_dslash u ++ [SLASH]))) /\
              u = (match req with [] => [SLASH] | _ => req end) /\ ends_with_slash u = false /\
              exists d, fs_open fs req = Some d /\ n_dir d = true) \/
@@ -299,26 +299,29 @@ Proof.
   destruct (ends_with_slash u) eqn:Eu; simpl negb; cbv iota.
   - destruct (existsb _ (children fs (jail req))); [left; reflexivity|].
     destruct archive as [|a ar].
-    + right; right; right; right; left. rewrite visible_kids_eq. split; reflexivity.
+    + destruct (limit_of limit).
+      * right; right; right; right; left. rewrite visible_kids_eq. split; reflexivity.
+      * right; right; left; right. reflexivity.
     + destruct (existsb (beq (a :: ar)) (b_types bc)).
       * right; right; right; right; right. split; [reflexivity|discriminate].
-      * right; right; left. reflexivity.
+      * right; right; left; left. reflexivity.
   - right; right; right; left. eexists. split; [reflexivity|]. split; [reflexivity|]. split; [exact Eu|].
     exists d. auto.
 Qed.
 
-Lemma listing_sound fs hide pages prefix confs m req ae archive kids :
-  browse fs hide pages prefix confs m req ae archive = Listing kids ->
+Lemma listing_sound fs hide pages prefix confs m req ae archive limit kids :
+  browse fs hide pages prefix confs m req ae archive limit = Listing kids ->
   forall k, In k kids -> In k fs /\ is_child (jail req) (n_path k) = true /\ is_hidden fs hide k = false.
 Proof.
   intros H k Hk.
-  pose proof (browse_cases fs hide pages prefix confs m req ae archive) as C. cbv zeta in C. rewrite H in C.
-  destruct C as [C|[C|[C|[C|[C|C]]]]].
+  pose proof (browse_cases fs hide pages prefix confs m req ae archive limit) as C. cbv zeta in C. rewrite H in C.
+  destruct C as [C|[C|[[C|C]|[C|[C|C]]]]].
   - symmetry in C. exfalso. revert C. unfold serve_file.
     repeat match goal with
            | |- context [if ?b then _ else _] => destruct b; try discriminate
            | |- context [match ?x with _ => _ end] => destruct x; try discriminate
            end.
+  - discriminate.
   - discriminate.
   - discriminate.
   - destruct C as (u & C & _). discriminate.
@@ -365,17 +368,18 @@ Proof.
     rewrite Hdir, Hak in C. rewrite orb_true_r in C. discriminate.
 Qed.
 
-Lemma archive_sound fs hide pages prefix confs m req ae archive ms :
-  browse fs hide pages prefix confs m req ae archive = Archive ms ->
+Lemma archive_sound fs hide pages prefix confs m req ae archive limit ms :
+  browse fs hide pages prefix confs m req ae archive limit = Archive ms ->
   forall k, In k ms ->
     In k fs /\ is_desc (jail req) (n_path k) = true /\ is_hidden fs hide k = false /\
     (forall a, In a fs -> n_dir a = true -> is_desc (jail req) (n_path a) = true ->
                is_desc (n_path a) (n_path k) = true -> is_hidden fs hide a = false).
 Proof.
   intros H k Hk.
-  pose proof (browse_cases fs hide pages prefix confs m req ae archive) as C. cbv zeta in C. rewrite H in C.
-  destruct C as [C|[C|[C|[C|[C|C]]]]].
+  pose proof (browse_cases fs hide pages prefix confs m req ae archive limit) as C. cbv zeta in C. rewrite H in C.
+  destruct C as [C|[C|[[C|C]|[C|[C|C]]]]].
   - symmetry in C. exfalso. exact (serve_file_not_archive _ _ _ _ _ _ _ _ C).
+  - discriminate.
   - discriminate.
   - discriminate.
   - destruct C as (u & C & _). discriminate.
@@ -627,14 +631,14 @@ Proof.
       destruct (first_sibling fs hide req1 ae gen_static_encodings) as [[sn e]|]; discriminate.
 Qed.
 
-Lemma browse_redirect fs hide pages prefix confs m req ae archive code loc :
+Lemma browse_redirect fs hide pages prefix confs m req ae archive limit code loc :
   rooted prefix -> rooted req ->
-  browse fs hide pages prefix confs m req ae archive = Redirect code loc ->
+  browse fs hide pages prefix confs m req ae archive limit = Redirect code loc ->
   one_slash loc = true /\ same_origin loc = true.
 Proof.
   intros Hpre Hroot H.
-  pose proof (browse_cases fs hide pages prefix confs m req ae archive) as C. cbv zeta in C. rewrite H in C.
-  destruct C as [C|[C|[C|[C|[C|C]]]]]; try discriminate.
+  pose proof (browse_cases fs hide pages prefix confs m req ae archive limit) as C. cbv zeta in C. rewrite H in C.
+  destruct C as [C|[C|[[C|C]|[C|[C|C]]]]]; try discriminate.
   - symmetry in C. apply static_redirect in C; [tauto|exact Hpre|exact Hroot].
   - destruct C as (u & C & Eu & Hends & _). injection C as -> ->.
     assert (Hu : u = req) by (destruct Hroot as (t & ->); exact Eu). clear Eu. subst u.
@@ -755,25 +759,25 @@ Proof.
   intros H. destruct (serve_file_serve _ _ _ _ _ _ _ _ _ H) as (_ & _ & _ & _ & Hh). exact Hh.
 Qed.
 
-Lemma archive_inside_root fs hide pages prefix confs m req ae archive ms :
-  browse fs hide pages prefix confs m req ae archive = Archive ms ->
+Lemma archive_inside_root fs hide pages prefix confs m req ae archive limit ms :
+  browse fs hide pages prefix confs m req ae archive limit = Archive ms ->
   forall k, In k ms ->
     In k fs /\ is_desc (jail req) (n_path k) = true /\ has_prefix (n_path k) (jail req) = true.
 Proof.
   intros H k Hk.
-  destruct (archive_sound _ _ _ _ _ _ _ _ _ _ H k Hk) as (Hin & Hd & _).
+  destruct (archive_sound _ _ _ _ _ _ _ _ _ _ _ H k Hk) as (Hin & Hd & _).
   split; [exact Hin|]. split; [exact Hd|]. apply is_desc_prefix. exact Hd.
 Qed.
 
-Lemma archive_never_hidden fs hide pages prefix confs m req ae archive ms :
-  browse fs hide pages prefix confs m req ae archive = Archive ms ->
+Lemma archive_never_hidden fs hide pages prefix confs m req ae archive limit ms :
+  browse fs hide pages prefix confs m req ae archive limit = Archive ms ->
   forall k, In k ms ->
     is_hidden fs hide k = false /\
     (forall a, In a fs -> n_dir a = true -> is_desc (jail req) (n_path a) = true ->
                is_desc (n_path a) (n_path k) = true -> is_hidden fs hide a = false).
 Proof.
   intros H k Hk.
-  destruct (archive_sound _ _ _ _ _ _ _ _ _ _ H k Hk) as (_ & _ & Hh & Ha). auto.
+  destruct (archive_sound _ _ _ _ _ _ _ _ _ _ _ H k Hk) as (_ & _ & Hh & Ha). auto.
 Qed.
 
 (* ---- the whole site: internal -> browse -> static ---- *)
@@ -789,16 +793,16 @@ Qed.
 
 Lemma handle_cases (s : site) (r : request) :
   handle s r = Status 404 \/
-  handle s r = browse (s_fs s) (s_hide s) (s_pages s) (s_prefix s) (s_browse s) (q_meth r) (q_path r) (q_ae r) (q_archive r).
+  handle s r = browse (s_fs s) (s_hide s) (s_pages s) (s_prefix s) (s_browse s) (q_meth r) (q_path r) (q_ae r) (q_archive r) (q_limit r).
 Proof. unfold handle. destruct (internal_blocks (s_internal s) (q_path r)); auto. Qed.
 
-Lemma browse_serve fs hide pages prefix confs m req ae archive n enc :
-  browse fs hide pages prefix confs m req ae archive = Serve n enc ->
+Lemma browse_serve fs hide pages prefix confs m req ae archive limit n enc :
+  browse fs hide pages prefix confs m req ae archive limit = Serve n enc ->
   serve_file fs hide pages prefix m req ae = Serve n enc.
 Proof.
   intros H.
-  pose proof (browse_cases fs hide pages prefix confs m req ae archive) as C. cbv zeta in C. rewrite H in C.
-  destruct C as [C|[C|[C|[C|[C|C]]]]]; try discriminate.
+  pose proof (browse_cases fs hide pages prefix confs m req ae archive limit) as C. cbv zeta in C. rewrite H in C.
+  destruct C as [C|[C|[[C|C]|[C|[C|C]]]]]; try discriminate.
   - symmetry. exact C.
   - destruct C as (u & C & _). discriminate.
   - destruct C as [C _]. discriminate.
@@ -832,8 +836,8 @@ Proof.
     repeat split; auto.
   - intros k Hk. eapply listing_sound; eassumption.
   - intros k Hk.
-    destruct (archive_inside_root _ _ _ _ _ _ _ _ _ _ E k Hk) as (H1 & H2 & H3).
-    destruct (archive_never_hidden _ _ _ _ _ _ _ _ _ _ E k Hk) as (H4 & _). auto.
+    destruct (archive_inside_root _ _ _ _ _ _ _ _ _ _ _ E k Hk) as (H1 & H2 & H3).
+    destruct (archive_never_hidden _ _ _ _ _ _ _ _ _ _ _ E k Hk) as (H4 & _). auto.
 Qed.
 
 (* ------------------------------------------------------------------------------------------ *)
@@ -861,10 +865,11 @@ Proof.
   unfold spec_ok, spec_ok_ref. cbv zeta.
   set (fs := s_fs s). set (hide := s_hide s). set (c := jail (q_path r)).
   assert (Hok : forall (w1 w2 : bytes -> bool), (forall p, w1 p = w2 p) -> forall id,
-     negb (mem_N (hidden_ids fs hide) id) &&
+     inside_id id && negb (mem_N (hidden_ids fs hide) id) &&
      existsb (fun n => if (n_id n =? id) && negb (n_dir n) then w1 (n_path n) else false) fs =
+     inside_id id &&
      existsb (fun n => (n_id n =? id) && negb (n_dir n) && negb (hidden_id fs hide id) && w2 (n_path n)) fs).
-  { intros w1 w2 Hw id. rewrite hidden_ids_spec. rewrite <- existsb_andb_const.
+  { intros w1 w2 Hw id. rewrite <- andb_assoc. f_equal. rewrite hidden_ids_spec. rewrite <- existsb_andb_const.
     apply existsb_ext_in. intros n _. rewrite Hw.
     destruct (n_id n =? id), (n_dir n), (hidden_id fs hide id), (w2 (n_path n)); reflexivity. }
   assert (Hvis : forall p,
@@ -881,12 +886,15 @@ Proof.
   pose (w2 := fun p => is_desc c p && negb (existsb (fun a => n_dir a && hidden_id fs hide (n_id a) &&
      is_desc c (n_path a) && is_desc (n_path a) p) fs)).
   assert (Hw : forall p, w1 p = w2 p) by (intros p; unfold w1, w2; rewrite Hbel; reflexivity).
+  assert (Hfil : filter (fun k => negb (mem_N (hidden_ids fs hide) (n_id k))) (children fs c) =
+                 filter (fun k => negb (hidden_id fs hide (n_id k))) (children fs c)).
+  { apply filter_ext_in'. intros k _. rewrite hidden_ids_spec. reflexivity. }
   f_equal. destruct (o_kind o) as [|k].
-  - f_equal. apply forallb_ext_in. intros id _. apply Hok. intros p. apply allowed_static_set_spec.
+  - f_equal. f_equal; apply forallb_ext_in; intros id _; apply Hok; intros p; apply allowed_static_set_spec.
   - destruct k as [k|k|].
-    + f_equal; [apply forallb_ext_in; intros id _; exact (Hok w1 w2 Hw id)|].
+    + f_equal; [f_equal; apply forallb_ext_in; intros id _; exact (Hok w1 w2 Hw id)|].
       apply forallb_ext_in. intros nm _. rewrite Hvis, Hbel. reflexivity.
-    + f_equal; [apply forallb_ext_in; intros id _; exact (Hok w1 w2 Hw id)|].
+    + f_equal; [f_equal; apply forallb_ext_in; intros id _; exact (Hok w1 w2 Hw id)|].
       apply forallb_ext_in. intros nm _. rewrite Hvis, Hbel. reflexivity.
-    + f_equal. apply forallb_ext_in. intros nm _. apply Hvis.
+    + rewrite Hfil. f_equal. f_equal. apply forallb_ext_in. intros nm _. apply Hvis.
 Qed.
